@@ -158,16 +158,59 @@ def protocol_monitor(out_bytes, nlines_sent):
     return bad, terminals
 
 
-def run(ctx, V, monitors=("C06",)):
+def run(ctx, V):
+    import pmcheck
+    proofs_ok = vlib.proof_gate(ctx, V, extract=["Extract/ExClient.vo", "Extract/ExEnqueue.vo"])
+    correspond(ctx, V, n=250 if ctx.tier == "quick" else 5000)
+    # whole daemon under ASan/UBSan with hostile client input
+    exe = pmsim.build(ctx)
+    n = 300 if ctx.tier == "quick" else 10000
+    scs = [hostile_scenario(ctx.rng) for _ in range(n)]
+    pmcheck.run_batch(ctx, V, exe, scs, ["alive", "protocol", "wedge"], "c06")
+
+
+def hostile_scenario(rng):
+    """1-3 clients of which client 0 is well-behaved; the others send junk, malformed ranges, long lines, binary data, pipelined commands,
+    arbitrary segmentation, and drop at any moment"""
+    import pmcheck
+    sc = pmcheck.gen_scenario(rng, style="healthy")
+    ncli = sc.tags["ncli"]
+    bad = ncli
+    extra = [("connect",), ("wait", bad)]
+    for _ in range(rng.randint(2, 10)):
+        j = rng.choice(JUNK)
+        if rng.random() < 0.1:
+            j = b"on " + b"x" * rng.choice([1022, 1023, 1024, 131071, 131072, 140000])
+        if rng.random() < 0.15:
+            j = bytes(rng.randrange(256) for _ in range(rng.randint(1, 60))).replace(b"\n", b"")
+        data = j + b"\r\n"
+        # arbitrary segmentation into reads
+        cuts = sorted(rng.sample(range(1, len(data)), min(len(data) - 1, rng.choice([0, 0, 1, 3])))) if len(data) > 1 else []
+        prev = 0
+        for cpos in cuts + [len(data)]:
+            extra.append(("send", bad, data[prev:cpos])); prev = cpos
+        if rng.random() < 0.5 and len(data) < 2000:
+            extra.append(("wait", bad))
+    end = rng.choice(["eof", "rst", "none", "quit"])
+    if end == "eof": extra.append(("raw", ["EOF c%d" % bad]))
+    elif end == "rst": extra.append(("raw", ["RST c%d" % bad]))
+    elif end == "quit": extra.append(("send", bad, b"quit\r\n"))
+    # interleave the hostile client's steps into the healthy script at a random position
+    pos = rng.randint(2 * ncli, len(sc.script))
+    sc.script[pos:pos] = extra
+    sc.tags["ncli"] = ncli + 1
+    sc.tags["hostile"] = bad
+    return sc
+
+
+def correspond(ctx, V, n):
     import C01
-    proofs_ok = vlib.proof_gate(ctx, V, extract=["Extract/ExClient.vo"])
     consts = pmgen.load_genconsts(ctx.coq)
     cli = build_cli(ctx)
     enq = C01.build_enq(ctx)
     model = build_model(ctx)
     version = version_of(ctx)
-    n = 250 if ctx.tier == "quick" else 5000
-    V.rule = ("R-CLIENT: generated configurations (C01 space + aliases) x client sessions (1-4 clients; valid requests over compressed/aliased/unknown/duplicate "
+    V.rule = (V.rule + " || " if V.rule else "") + ("R-CLIENT: generated configurations (C01 space + aliases) x client sessions (1-4 clients; valid requests over compressed/aliased/unknown/duplicate "
               "targets, keyword case and spacing variants, junk and malformed host ranges, 1 KiB tokens, pipelined lines, injected completions with every ActError, "
               "Arg updates, telemetry and diagnostics); the real _parse_input/_act_finish/reply formatters are compared byte for byte with Model.Client and each "
               "client's stream is checked by the protocol monitor; non-trivial = a device command was queued; distinct by (config, ops)")
